@@ -455,7 +455,10 @@ var tightPunct = map[string]bool{"(": true, ")": true, "[": true, "]": true, "{"
 // // comments, and no separator at all where the two tokens cannot merge.
 func JoinLayout(toks []Tok, r *rand.Rand) string {
 	var b strings.Builder
-	seps := []string{" ", "  ", "\t", "\n", "\r\n", " \n\t ", " // note\n", "\n// x = 1; \"q\" /re/\n", " //\n"}
+	seps := []string{" ", "  ", "\t", "\n", "\r\n", " \n\t ", " // note\n", "\n// x = 1; \"q\" /re/\n", " //\n",
+		// comments holding whatever a comment may hold: lone carriage returns and other control
+		// characters followed by program text, quotes and slashes left open, a backslash last
+		" // set up\rx = 2; return x;\n", "\n//\r\r y = 3;\r\n", " //\ty = 3; \v \f z\n", " // é狐 \u2028 z = 1; \u00a0 #! @ `\n", "\t// 'open \"open /open \\\n", " //// */ /* \\\\\n", " // return false; }\r ) ] }\n"}
 	if r.Intn(3) == 0 {
 		b.WriteString(seps[r.Intn(len(seps))])
 	}
